@@ -111,3 +111,14 @@ def gen(src, glb, tag="gen"):
     filename = "<%s %s %d>" % (glb.get("__name__", "harness"), tag, len(linecache.cache))
     linecache.cache[filename] = (len(src), None, src.splitlines(True), filename)
     exec(compile(src, filename, "exec"), glb)
+
+
+def untraced_call(fn, *a, **k):
+    """Call `fn` with CrossHair tracing off (symbolic mode) or plainly (real mode). Only for code that merely selects or
+    constructs objects from concrete arguments (e.g. a class-dispatch table); never for code under test."""
+    if REAL:
+        return fn(*a, **k)
+    from crosshair.tracers import NoTracing
+
+    with NoTracing():
+        return fn(*a, **k)
